@@ -450,6 +450,12 @@ func h1Oracles(env *Env, c *H1Cfg, st *h1State, hr *h1Run, runIdx int, stats sim
 						dur(tm), dur(earliest), dur(c.WaitTimeoutNs))
 				}
 			}
+			// triggering that is over before it begins requests nothing (rate-driven triggers ask their context before
+			// every request, the first one included; users mode since fix F18)
+			if (limit <= 0 || (g.Cancelled && g.CancelSeq < g.DoCalledSeq)) && c.Mode != "file" && len(g.Bodies) > 0 {
+				env.Violate("C05", "iteration-started-after-stop", "run/"+c.Mode+"/over-before-it-began", "%d iterations ran although triggering had to stop before it began (max-duration %s, cancelled before the run=%v)",
+					len(g.Bodies), dur(c.MaxDurationNs), g.Cancelled && g.CancelSeq < g.DoCalledSeq)
+			}
 			for _, b := range g.Bodies {
 				if b.BeginNs > stop+stallBudget {
 					env.Violate("C05", "iteration-started-after-stop", "run/"+c.Mode, "iteration %s began at %s, after triggering had to stop at %s (cancelled=%v)", b.Iter, dur(b.BeginNs), dur(stop), g.Cancelled)
